@@ -80,10 +80,17 @@ pub fn matrix_configs(thorough: bool) -> Vec<EpCfg> {
                         let mut s = matrix_stimuli(Ver::V4, 2);
                         s.extend(matrix_stimuli(Ver::V5, 2).into_iter().filter(|x| x.0 == "CONNECT" || x.0 == "AUTH").map(|x| (format!("v5 {}", x.0), x.1)));
                         // other protocol levels
-                        for lvl in [0u8, 3, 6, 255] {
+                        // (every value of the Protocol Level byte, on a v3.1.1-shaped and on a v5.0-shaped CONNECT)
+                        for lvl in 0..=255u8 {
+                            if lvl == 4 || lvl == 5 {
+                                continue;
+                            }
                             let mut c = rc::encode(&ConnProf::basic(true).ap(Ver::V4), 2);
                             c[8] = lvl;
                             s.push((format!("CONNECT level={lvl}"), c));
+                            let mut c = rc::encode(&ConnProf::basic(false).ap(Ver::V5), 2);
+                            c[8] = lvl;
+                            s.push((format!("CONNECT (v5.0 layout) level={lvl}"), c));
                         }
                         s
                     }
